@@ -843,14 +843,19 @@ impl<TokenIter: Iterator<Item = Result<Token>>> Parser<TokenIter> {
             Datum {
                 data: DatumBody::Pair(pair),
                 ..
-            } => ParameterFormalsBody::Pair(Box::new(pair.map_ok(&mut |datum| {
-                let sub_location = datum.location;
-                Ok(
-                    ParameterFormalsBody::Name(Self::transform_identifier(datum)?)
-                        .locate(sub_location),
-                )
-            })?))
-            .locate(location),
+            } => {
+                let formals = ParameterFormalsBody::Pair(Box::new(pair.map_ok(&mut |datum| {
+                    let sub_location = datum.location;
+                    Ok(
+                        ParameterFormalsBody::Name(Self::transform_identifier(datum)?)
+                            .locate(sub_location),
+                    )
+                })?))
+                .locate(location);
+                // map_ok descends into nested lists: ((a) b) is not a parameter list
+                formals.clone().split()?;
+                formals
+            }
             single => {
                 ParameterFormalsBody::Name(Self::transform_identifier(single)?).locate(location)
             }
